@@ -118,6 +118,7 @@ fn one_call(avail: Avail, steps: usize) {
     // ---- P3: on every exit nothing is held, nothing leaked, released exactly once per grant
     assert!(st().permits_held == 0, "[C07.no_capacity_lost] after the call future is gone no permit is held");
     assert!(st().permits_released_total == st().permits_granted_total, "[C07.release_exactly_once] every granted permit is released exactly once");
+    assert!(st().sem_added == 0 && !st().sem_closed, "[C01.capacity_never_changed] the bulkhead never adds permits to (or closes) its semaphore: capacity stays max_concurrent_calls");
     assert!(st().permits_granted_total <= 1 && st().acquires_started <= 1, "[C01.single_acquire] one acquire per call");
     assert!(mon().live == 0, "[C01.inner_gone_with_call] the inner future does not outlive the call future");
     assert!(mon().min_permits_while_live >= 1 || mon().calls == 0, "[C01.permit_outlives_inner] the permit is released only after the inner future completed or was dropped");
